@@ -11,7 +11,7 @@ use vcore::evidence::{catch, run_prop, Fail, PResult, Recorder};
 use vcore::mutate::{apply, arb_fault, Boundary, Fault};
 use vcore::refthrift::{Enc, MarkKind, Variant};
 use vcore::shrink::Shrink;
-use vcore::tschema::{arb_edit, arb_shape_value, canon, Edit, MsgType, SDoc, Shape, ValCfg};
+use vcore::tschema::{arb_edit, arb_shape_value, canon, Edit, MsgType, SDoc, STy, Shape, ValCfg};
 use vcore::tval::TVal;
 use vrt::codec::PKind;
 use vrt::gen::{Entry, Mode, RtReq};
@@ -205,8 +205,106 @@ pub fn c09(ctx: &GCtx) -> i32 {
             }
         }
     }
+    // nesting chains through self-referential struct fields, one child process per (protocol,
+    // sync/async): a stack overflow kills the child; depth grows until the tier's bound
+    for combo in ["binary,sync", "binary,async", "compact,sync", "compact,async"] {
+        let exe = std::env::current_exe().expect("current exe");
+        let out = std::process::Command::new(exe).args(["C09", "--tier", ctx.tier.name(), "--side", "deep-chain"]).env("VERIF_DEEP", combo).env("VERIF_SEED", (ctx.seed as i64).to_string()).output();
+        if let Ok(o) = out {
+            let so = String::from_utf8_lossy(&o.stdout).to_string();
+            let cases: Vec<&str> = so.lines().filter(|l| l.starts_with("SIDE case")).collect();
+            {
+                let mut r = rec.borrow_mut();
+                for l in &cases {
+                    r.case(fp(l), true, || json!({"nesting chain": l}));
+                    r.class("generated: nesting chain through a recursive struct");
+                }
+            }
+            if !o.status.success() {
+                let last = cases.last().cloned().unwrap_or("(none)").to_string();
+                let key = "recursive-decode-stack-overflow";
+                if ctx.findings.is_open("C09", key) {
+                    rec.borrow_mut().known_hit(key);
+                } else if seen.insert(key.to_string()) {
+                    let fl = Fail::new(key, format!("the decoding process died ({}) while decoding a nesting chain on an 8 MiB stack: {}", o.status, last));
+                    ctx.report(&rec, "generated-deep-chain", &json!({"chain": last}), &fl);
+                }
+            }
+        }
+    }
     let code = rec.borrow().finish(&ctx.findings);
     code
+}
+
+/// `depth` nested structs through field `id`, innermost empty: valid up to required members
+fn chain_bytes(pk: PKind, id: i16, depth: usize) -> Vec<u8> {
+    let mut out = Vec::with_capacity(depth * 4 + 1);
+    for _ in 0..depth {
+        match pk {
+            PKind::Binary | PKind::Unsafe => out.extend_from_slice(&[12, (id >> 8) as u8, id as u8]),
+            PKind::BinaryLe => out.extend_from_slice(&[12, id as u8, (id >> 8) as u8]),
+            PKind::Compact => {
+                // first field of its struct: delta from 0
+                if (1..=15).contains(&id) {
+                    out.push(((id as u8) << 4) | 12);
+                } else {
+                    out.push(12);
+                    let z = ((id as i32) << 1) ^ ((id as i32) >> 31);
+                    let mut z = z as u32;
+                    while z >= 0x80 {
+                        out.push((z as u8) | 0x80);
+                        z >>= 7;
+                    }
+                    out.push(z as u8);
+                }
+            }
+        }
+    }
+    out.extend(std::iter::repeat(0u8).take(depth + 1));
+    out
+}
+
+/// Child mode: every struct of the corpus with a field of its own type is fed nesting chains of
+/// growing depth (sync and async, binary and compact) on a thread with an 8 MiB stack.
+pub fn c09_deep_child(ctx: &GCtx) -> i32 {
+    use std::io::Write;
+    let tg = targets(ctx);
+    let depths: Vec<usize> = if ctx.tier == vcore::evidence::Tier::Quick { vec![100, 1_000, 10_000, 100_000] } else { vec![100, 1_000, 10_000, 100_000, 1_000_000] };
+    let mut done = 0;
+    for (unit, di, mt) in &tg {
+        if !unit.ends_with("_p") || ctx.corpus.docs[*di].side.is_some() {
+            continue;
+        }
+        let Shape::Struct(fields) = &mt.shape else { continue };
+        let doc = &ctx.corpus.docs[*di].doc;
+        let Some(fld) = fields.iter().find(|f| matches!(&f.ty, STy::Named(..)) && matches!(doc.resolve(&f.ty), vcore::tschema::Resolved::Struct(fs) if fs == fields)) else { continue };
+        let entry = ctx.entry(unit, doc, mt).unwrap().clone();
+        let combo = std::env::var("VERIF_DEEP").unwrap_or_default();
+        for pk in [PKind::Binary, PKind::Compact] {
+            for asynchronous in [false, true] {
+                if !combo.is_empty() && combo != format!("{},{}", if pk == PKind::Binary { "binary" } else { "compact" }, if asynchronous { "async" } else { "sync" }) {
+                    continue;
+                }
+                for &d in &depths {
+                    println!("SIDE case {} field {} {:?} {} depth {}", mt.rust_name, fld.id, pk, if asynchronous { "async" } else { "sync" }, d);
+                    let _ = std::io::stdout().flush();
+                    let bytes = chain_bytes(pk, fld.id, d);
+                    let e = entry.clone();
+                    let h = std::thread::Builder::new().stack_size(8 << 20).spawn(move || {
+                        let mode = if asynchronous { Mode::Async(vec![], false) } else { Mode::Sync };
+                        let req = RtReq { pk, mode, bytes: &bytes, sentinel: 0, linked_zc: false, poll_budget: 64 * bytes.len() + 1024 };
+                        let _ = catch(|| (e.ops.decode_only)(&req));
+                    });
+                    let _ = h.map(|h| h.join());
+                }
+            }
+        }
+        done += 1;
+        if done >= 3 {
+            break;
+        }
+    }
+    0
 }
 
 /// Child mode: async decode of messages whose container count was overwritten with i32::MAX.
